@@ -71,6 +71,22 @@ def _has_kind(v, kinds) -> bool:
     return False
 
 
+_NAMESAKES: list = []
+_DECOY_PLAIN = """from haiway import State, MISSING, Missing
+class Inner(State):
+    decoy: str = "decoy"
+class InnerSub(Inner):
+    pass
+class Node(State):
+    decoy: int = 0
+class GBox[T](State):
+    decoy: T | Missing = MISSING
+class C0(State):
+    decoy: bytes = b"decoy"
+"""
+_DECOY_GENERIC = _DECOY_PLAIN.replace("class C0(State):", "class C0[T](State):")
+
+
 def run_case(case) -> Outcome:
     out = Outcome()
     cls = case["cls"]
@@ -79,7 +95,25 @@ def run_case(case) -> Outcome:
     for a in cls["attrs"]:
         TT.term_kinds(a["term"], kinds)
     try:
-        mod = TT.define(src)
+        if cls.get("namesake"):
+            # unrelated State classes with the SAME names (same module name and qualified name, as after a reload, a
+            # re-run notebook cell or a class factory) exist, are specialised alike and stay alive: classes are objects,
+            # nothing may be looked up by name
+            import hashlib
+
+            modname = "hv_ns_" + hashlib.sha1(src.encode()).hexdigest()[:10]
+            decoy = TT.define_named(_DECOY_GENERIC if cls["generic"] else _DECOY_PLAIN, modname)
+            keep = [decoy, decoy.C0]
+            if cls["generic"] and cls.get("targ") is not None:
+                keep.append(decoy.C0[TT._targ_type(cls["targ"])])
+                sibd = TT.TARG_SIBLING.get(cls["targ"])
+                if sibd is not None:
+                    keep.append(decoy.C0[TT._targ_type(sibd)])
+            _NAMESAKES.append(keep)
+            del _NAMESAKES[:-8]
+            mod = TT.define_named(src, modname)
+        else:
+            mod = TT.define(src)
     except Exception as exc:  # noqa: BLE001
         out.violate("define", f"C05.define/class-definition-raised/{type(exc).__name__}", f"{exc!r}\n{src}")
         out.sample = {"src": src, "args": case["args"]}
@@ -179,6 +213,8 @@ def run_case(case) -> Outcome:
         classes.append("generic-class")
     if src.startswith("from __future__"):
         classes.append("postponed-annotations")
+    if cls.get("namesake"):
+        classes.append("same-named-unrelated-classes")
     for kname in ("alias_param", "alias", "self", "union", "literal", "generic", "tuple_fixed", "set", "protocol"):
         if kname in kinds:
             classes.append(kname)
@@ -275,7 +311,8 @@ def gen_class(draw, broken_defaults=True, min_attrs=1):
                 default_ok = False
         attrs.append({"name": f"a{i}", "term": term, "default": default, "default_ok": default_ok})
     future = (not generic) and draw(st.integers(0, 5)) == 0  # module with `from __future__ import annotations`
-    return {"generic": generic, "targ": targ, "attrs": attrs, "future": future}, allow_self
+    namesake = draw(st.integers(0, 5)) == 0  # same-named unrelated State classes exist (see run_case)
+    return {"generic": generic, "targ": targ, "attrs": attrs, "future": future, "namesake": namesake}, allow_self
 
 
 def gen_args(draw, cls, mode, omit_required=True):
